@@ -1,7 +1,10 @@
-"""Additional parameter extractions, one call per cluster (CONVENTIONS.md §1); called by
-extract_params.py with the dict that becomes lean/TbotVerif/Generated/Params.lean."""
+"""Cluster-specific parameter extractors; each adds its keys to the dict `p`."""
 
 
-def extract(p):
-    import tcextract
-    tcextract.extract(p)
+def extract(p: dict) -> None:
+    for modname in ("tcextract", "sshextract", "logextract", "quoteextract", "ctxextract", "shellextract"):
+        try:
+            mod = __import__(modname)
+        except ImportError:
+            continue
+        mod.extract(p)
